@@ -38,6 +38,15 @@ var SignatureHeaders = []string{
 	"Cookie",
 }
 
+// identityHeaders are the request headers through which sso-proxy asserts the authenticated
+// identity to upstreams. Upstreams trust them, so client-supplied values are never forwarded.
+var identityHeaders = []string{
+	"X-Forwarded-User",
+	"X-Forwarded-Email",
+	"X-Forwarded-Groups",
+	"X-Forwarded-Access-Token",
+}
+
 // Errors
 var (
 	ErrLifetimeExpired               = errors.New("user lifetime expired")
@@ -541,6 +550,13 @@ func (p *OAuthProxy) Proxy(rw http.ResponseWriter, req *http.Request) {
 	start := time.Now()
 	tags := []string{"action:proxy"}
 	var err error
+
+	// The identity headers are asserted by sso-proxy only: drop whatever the client supplied,
+	// so that neither whitelisted (unauthenticated) requests nor authenticated requests without
+	// a forwarded access token carry client-chosen values to the upstream.
+	for _, header := range identityHeaders {
+		req.Header.Del(header)
+	}
 
 	// If the request is explicitly whitelisted, we skip authentication
 	if p.IsWhitelistedRequest(req) {
